@@ -24,6 +24,7 @@ func checkC01(c *Ctx, r *Report) {
 	c01R8(c, r)
 	c01Sections(c, r)
 	c01PrivateCtor(c, r)
+	c01EscapeDuality(c, r)
 	// encoders that must emit a sorted list (SvcParamKeys of "mandatory", ...) sort what they emit
 	r.rule("C01.R9.sort-own-slice", 1, "an encoder that sorts before writing orders the slice it writes by that slice's own elements")
 	sortOwnSlice(c, r, "C01.R9.sort-own-slice", func(fn string) bool { return strings.HasSuffix(fn, ".pack") || strings.HasPrefix(fn, "pack") })
